@@ -16,6 +16,9 @@ package main
 import (
 	"fmt"
 	"reflect"
+	"strings"
+
+	bexpr "github.com/hashicorp/go-bexpr"
 )
 
 // wrapDoc wraps map-entry values of a JSON-like document at random (never list elements: `in` and
@@ -235,6 +238,28 @@ func optsGovernLookups(g *Gen, o *Out, n int) {
 				}
 			}
 		}
+		// ---- a tag name is used exactly as given: names that differ from every tag key of the struct (by case,
+		// by a blank, by an accent) select NO tag, so all of them must behave like a name no field carries
+		{
+			troot := reflect.ValueOf(t)
+			var gp []PathInfo
+			enumPaths(troot, "no such tag key", nil, 4, &gp)
+			for k := 0; k < 4; k++ {
+				e := g.genExpr(troot, "no such tag key", gp, 1, false)
+				text, _, ok := g.renderTop(e)
+				if !ok {
+					continue
+				}
+				ref := evalText(o, []OptSpec{{Kind: "tag", Tag: "nomatch"}}, text, t)
+				odd := []string{"JSON", "Json", "json ", " json", "bexpr ", "BEXPR", "Bexpr", "jsón", "json\t", "j"}[g.r.Intn(10)]
+				got := evalText(o, []OptSpec{{Kind: "tag", Tag: odd}}, text, t)
+				o.count("govern:tag-exact:" + norm(ref))
+				if norm(ref) != norm(got) {
+					o.finding(Finding{Property: "C18", Kind: "failing-input", What: fmt.Sprintf("the tag name %q is not used as given: %s, but %s under a tag name no field carries", odd, got, ref), Request: lastReq(o), Detail: text})
+					o.finding(Finding{Property: "C08", Kind: "failing-input", What: fmt.Sprintf("the tag name %q is not used as given: %s, but %s under a tag name no field carries", odd, got, ref), Request: lastReq(o), Detail: text})
+				}
+			}
+		}
 	}
 }
 
@@ -321,6 +346,97 @@ func shapeShiftHistory(g *Gen, o *Out, n int) {
 				if _, isColl := e.(GColl); isColl {
 					o.finding(Finding{Property: "C06", Kind: "failing-history", What: fmt.Sprintf("the fold depends on the shapes earlier data had at the collection path: %s vs fresh %s (history %v)", got, want, hist), Request: lastReq(o), Detail: text})
 				}
+			}
+		}
+	}
+}
+
+// filterHistory (C17, C13): ONE Filter is executed on a sequence of containers of different Go types
+// (named and unnamed slices, arrays of different lengths and element types, maps of different key and
+// element types, interface-typed elements, inputs that make it fail); every result — its dynamic
+// type included — must be what a Filter created for that call alone returns, and the inputs stay
+// untouched (also the part of a slice's backing array beyond its length).
+type Items []map[string]interface{}
+
+func filterHistory(g *Gen, o *Out, n int) {
+	exec := func(f *bexpr.Filter, d interface{}) (ans string) {
+		defer func() {
+			if r := recover(); r != nil {
+				ans = "P " + fmt.Sprint(r)
+			}
+		}()
+		res, err := f.Execute(d)
+		if err != nil {
+			return "E"
+		}
+		return fmt.Sprintf("ok %T %s", res, canonResult(res))
+	}
+	for i := 0; i < n; i++ {
+		mk := func(x int, keep bool) map[string]interface{} { return map[string]interface{}{"x": x, "keep": keep, "s": fmt.Sprint(x)} }
+		var rows []map[string]interface{}
+		for j, k := 0, 3+g.r.Intn(5); j < k; j++ {
+			rows = append(rows, mk(g.r.Intn(3), g.r.Intn(3) != 0))
+		}
+		backing := make([]map[string]interface{}, len(rows), len(rows)+4)
+		copy(backing, rows)
+		ifaces := make([]interface{}, len(rows))
+		structs := make([]Inner, len(rows))
+		ptrs := make([]*Inner, len(rows))
+		byKey := map[string]map[string]interface{}{}
+		byInt := map[int]interface{}{}
+		for j, r := range rows {
+			ifaces[j] = r
+			structs[j] = Inner{J: r["x"].(int), Y: fmt.Sprint(r["x"])}
+			ptrs[j] = &structs[j]
+			byKey[fmt.Sprintf("k%d", j)] = r
+			byInt[j] = r
+		}
+		var arr3 [3]map[string]interface{}
+		copy(arr3[:], rows)
+		var arr2 [2]interface{}
+		arr2[0], arr2[1] = rows[0], structs[0]
+		conts := []interface{}{rows, Items(rows), backing[:len(rows)-1], ifaces, structs, ptrs, byKey, byInt, arr3, arr2, [1]int{7}, []int{1, 2}, nil, "str", map[string]int{"a": 1},
+			[]interface{}{rows[0], nil, structs[0]}, []*Inner{ptrs[0], nil}, MyMap{"a": 1}, []Items{Items(rows)}, [0]Inner{}, []Inner{}}
+		// mostly containers whose elements the expression can judge (maps with x/keep/s: 0..9; Inner structs: 4, 5, 19, 20)
+		fam := g.r.Intn(3)
+		text := []string{"x == 1", "keep == true", "x != 0 and keep == true", "not (x == 2)", "s in `12`"}[g.r.Intn(5)]
+		pick := []int{0, 1, 2, 3, 6, 7, 8, 0, 1, 2}
+		if fam == 1 {
+			text = []string{"J == 1", "why != `1`", "J != 0 or why == `2`"}[g.r.Intn(3)]
+			pick = []int{4, 5, 19, 20, 16, 4, 5}
+		}
+		f, err := bexpr.CreateFilter(text)
+		if err != nil || f == nil {
+			continue
+		}
+		var hist []string
+		for h, hl := 0, 3+g.r.Intn(6); h < hl; h++ {
+			ci := pick[g.r.Intn(len(pick))]
+			if fam == 2 || g.r.Intn(5) == 0 {
+				ci = g.r.Intn(len(conts))
+			}
+			d := conts[ci]
+			before := serAny(d)
+			var tailBefore string
+			if ci == 2 {
+				tailBefore = serAny(backing)
+			}
+			got := exec(f, d)
+			fresh, _ := bexpr.CreateFilter(text)
+			want := exec(fresh, d)
+			hist = append(hist, fmt.Sprintf("%T", d))
+			o.meta.Cases++
+			o.count("filter-history:" + strings.SplitN(got, " ", 2)[0])
+			req := "filter " + hx(text) + " " + before + " ( re )"
+			if serAny(d) != before || (ci == 2 && serAny(backing) != tailBefore) {
+				o.finding(Finding{Property: "C17", Kind: "failing-input", What: "Execute modified its input (or the backing array behind it)", Request: req, Detail: text})
+				o.finding(Finding{Property: "C13", Kind: "failing-input", What: "Execute modified its input (or the backing array behind it)", Request: req, Detail: text})
+				copy(backing, rows)
+			}
+			if got != want {
+				what := fmt.Sprintf("call %d of one Filter (inputs so far %v) returns %.160s, a Filter created for this call returns %.160s", h, hist, got, want)
+				o.finding(Finding{Property: "C17", Kind: "failing-history", What: what, Request: req, Detail: text})
+				o.finding(Finding{Property: "C13", Kind: "failing-history", What: what, Request: req, Detail: text})
 			}
 		}
 	}
